@@ -156,3 +156,11 @@ M("c14-explicit-range-ignored", "C14", ("image.py", "                if min_valu
 M("c14-loader-drops-datamin", "C14", ("image.py", "                    min_value=min_value,\n                    max_value=max_value,\n                )\n            return img", "                    min_value=None,\n                    max_value=max_value,\n                )\n            return img"))
 M("c14-builder-swaps", "C14", ("builder.py", '                self.imgset.data_min = top_tile[0].header["DATAMIN"]', '                self.imgset.data_min = float(np.nanmin(top_tile[0].data))'))
 M("c14-first-child-only", "C14", ("merge.py", "            for image in children:\n                if image is not None:\n                    if image.data_min is not None:", "            for image in children[:3]:\n                if image is not None:\n                    if image.data_min is not None:"))
+
+# ---- C06
+M("c06-no-flip-fits", "C06", ("toast.py", "        self._invert_into_tiles = pio.get_default_vertical_parity_sign() == 1", "        self._invert_into_tiles = False"))
+M("c06-neighbour-pos", "C06", ("toast.py", "            self._pio.write_image(pos, img, format=self._format)", "            self._pio.write_image(pos if pos.n < 2 or pos.x % 2 else pos._replace(x=pos.x + 1), img, format=self._format)"))
+M("c06-level0-quadrant-swap", "C06", ("toast.py", "        iy = slice(128 * tile.pos.y, 128 * (tile.pos.y + 1))\n        ix = slice(128 * tile.pos.x, 128 * (tile.pos.x + 1))", "        iy = slice(128 * tile.pos.x, 128 * (tile.pos.x + 1))\n        ix = slice(128 * tile.pos.y, 128 * (tile.pos.y + 1))"))
+M("c06-coordsys-dropped", "C06", ("toast.py", "    p = Pyramid.new_toast_filtered(depth, tile_filter, coordsys=coordsys)", "    p = Pyramid.new_toast_filtered(depth, tile_filter)"))
+M("c06-update-overwrites", "C06", ("toast.py", "                img.update_into_maskable_buffer(\n                    basis, slice(None), slice(None), slice(None), slice(None)\n                )", "                img.fill_into_maskable_buffer(\n                    basis, slice(None), slice(None), slice(None), slice(None)\n                )"))
+M("c06-level0-coordsys", "C06", ("toast.py", "            lon, lat = _toast_level0_get_coords(self._coordsys)", "            lon, lat = _toast_level0_get_coords(ToastCoordinateSystem.ASTRONOMICAL)"))
